@@ -52,6 +52,7 @@ DESC = [
     # ---- C09
     # ---- C12 / C13
     (r"^C12/delete-error/whole-(ordered-)?list:present:list-path-without-keys$", "a keyed-list path without keys cannot be deleted on uncompressed code (NotFound)", "ytypes/node.go retrieveNodeList; witness: DeleteNode(/lists/bounded)"),
+    (r"^C13/tree-differs-from-model/.*@wrapper-union-key$", "an update whose JSON names an existing entry of a wrapper-union-keyed list adds a second entry instead of merging into it (keys compared by pointer; same root as the C31/C05 entries)", "ytypes/list.go unmarshalList; witness: vt/U-wrapper two updates of /lists naming /lists/by-un64[k=MANUAL]"),
     (r"^C13/request-rejected/(list-path-without-keys|failed to create map value for insert)$", "delete/replace of a keyed-list path without keys is rejected", "ytypes/node.go; witness: replace /cfgstate/cl with a JSON array"),
     # ---- C15
     (r"^C15/nil-key-accepted/AppendNilKey:(map|parent):single-key:union-key$", "Append on an ordered map (and the parent's Append<List>) accepts an entry whose union key is nil and stores it under the nil interface key", "gogen/ordered_list.go Append; witness: oc5 ord-un Append(&Entry{})"),
@@ -74,13 +75,17 @@ DESC = [
     (r"^C28/enum-first-not-zero/", "a YANG enum with a negative value makes the first proto enum value non-zero", "protogen"),
     (r"^C28/enum-value-out-of-range/", "YANG enum value 2147483647 overflows the proto enum range after the +1 shift", "protogen"),
     (r"^C28/enum-duplicate-name/", "enum value names collide after sanitising non-identifier characters", "protogen"),
+    (r"^C28/parse-error/groups are not allowed in proto_$", "a container or list named 'group' becomes the package 'group' under -package_hierarchy, and a field type that starts with the token 'group' (group.UpTime) is parsed as a proto2 group: the file is not valid proto3", "protogen; witness: random schema 1-18 /link/interface/group/up-time, options hierarchy (thorough tier)"),
     (r"^C28/parse-error/", "yang_name option strings are not escaped (quotes, backslashes)", "protogen"),
     (r"^C28/json-name-conflict/", "field names that differ only by '_'/case have the same proto3 JSON name", "protogen"),
     (r"^C28/duplicate-symbol/", "message/enum/field/package symbols collide in one scope", "protogen"),
     (r"^C28/unresolved-import/", "an import refers to a file that is not generated (empty name / enums.proto)", "protogen"),
+    (r"^C28/unresolved-type/type-reference:shadowed-by-inner-scope$", "a relative type reference (interface.Group) whose first component also names an inner package resolves to that package, where the type does not exist", "protogen type references under -package_hierarchy; witness: random schema 1-18 /link/interface/group (thorough tier)"),
     (r"^C28/unresolved-type/", "a referenced type or option is defined in a file that is not imported / nowhere", "protogen"),
     # ---- C29
     (r"^C29/resolve-error/top-level-node-named-id-hides-root-Id-method$", "a top-level node named 'id' generates DevicePath.Id(...), hiding the root's own Id() method; ResolvePath then fails for every path of the schema", "ypathgen; witness: random OpenConfig-style schema with top-level list 'id'"),
+    # ---- C30
+    (r"^C30/dangling-accepted/.*:predicate-value-is-the-string-\*$", "a leafref key predicate [k=current()/../x] whose x holds the string \"*\" is evaluated as a wildcard key: every entry matches, so a reference that dangles is accepted", "ytypes/leafref.go leafRefToGNMIPath + GetNode wildcards; witness: /scalars/sel-a = \"*\", lref-pred (thorough tier)"),
     # ---- C31
     (r"^C31/merge-differs-from-model/leaf:leaf:string@wrapper-union-key$", "Unmarshal into an existing entry of a wrapper-union-keyed list adds a second entry instead of updating (keys compared by pointer)", "ytypes/list.go; witness: vt/U-wrapper /lists/by-union"),
     # ---- C33
